@@ -68,6 +68,26 @@ impl CKBProtocolHandler for SyncProtocol {
         match message {
             packed::SyncMessageUnionReader::SendBlock(reader) => {
                 let new_block = reader.to_entity().block();
+                // Only the header of a matched block is proved: the body has to be the one that
+                // header commits to, before any of it is indexed.
+                {
+                    let view = new_block.clone().into_view_without_reset_header();
+                    if view.transactions_root() != view.calc_transactions_root()
+                        || view.extra_hash() != view.calc_extra_hash().extra_hash()
+                        || view.proposals_hash() != view.calc_proposals_hash()
+                    {
+                        warn!(
+                            "SyncProtocol.received a block whose body does not match its header from Peer({})",
+                            peer
+                        );
+                        nc.ban_peer(
+                            peer,
+                            BAD_MESSAGE_BAN_TIME,
+                            String::from("send us a block whose body does not match its header"),
+                        );
+                        return;
+                    }
+                }
                 let mut matched_blocks = self.peers.matched_blocks().write().expect("poisoned");
                 self.peers.add_block(&mut matched_blocks, new_block);
 
